@@ -390,6 +390,9 @@ var IntFunc = function.New(&function.Spec{
 		if bf.IsInt() {
 			return args[0], nil
 		}
+		if bf.IsInf() {
+			return cty.NilVal, fmt.Errorf("can't truncate infinity to an integer")
+		}
 		bi, _ := bf.Int(nil)
 		bf = (&big.Float{}).SetInt(bi)
 		return cty.NumberVal(bf), nil
